@@ -2,3 +2,5 @@
 //! Kani harnesses over pallas-utxorpc (C44).
 #[cfg(kani)]
 mod stubs;
+#[cfg(kani)]
+mod c44;
